@@ -92,6 +92,21 @@ CHECKS = {
              "integers) backs the ghost tree model and the rendering glue; it is labelled bounded and not counted in obligations/discharged.",
         note="Assumes: item graph is a finite tree of non-empty groups with distinct nodes (precondition); ghost numbering == render order of Acl.line (validated on every "
              "enumerated tree, not proved); Python ints mathematical. " + TB),
+    "C15": dict(
+        level="other", design_ref="DESIGN.md 5/C15",
+        technique="contracts on AceGroup/Acl.tcam_count (ghost recursive sum, loop invariant) and the three __lt__ discharged by own VC generator; SMT lemma for sort; bounded group/ungroup/reorder/sort",
+        text="Discharged: tcam_count == 1 + sum over ACEs of |src members| x |dst members| (1 for a plain address, empty group counts 1) for any nesting; Ace/Remark/AceGroup "
+             "`<` is decided by the sequence numbers whenever they differ; lemma L15.sort (induction step: the ascending arrangement of distinct numbers is unique). "
+             "Bounded (labelled): group/ungroup keep the multiset and, for distinct headings, the text; blocks move as units; resequence+shuffle+sort restores the order; "
+             "TCAM unchanged - on all item lists of <= 4/5 items over 9 kinds.",
+        note="Known finding: a repeated heading remark is dropped by group() (pinned by tests). Acl.group/_ungroup/Group methods not proved. " + TB),
+    "C19": dict(
+        level="other", design_ref="DESIGN.md 5/C19",
+        technique="SMT lemma L19.replace + bounded contract checking of Ace/AceGroup/Acl.ungroup_ports with the independent reader",
+        text="Lemma (proved): replacing a rule by adjacent same-action rules whose match sets have the rule's set as union keeps every first-match decision. Bounded "
+             "(labelled): ungroup_ports on 11 x 11 port expressions x 2 option sets: one port per side, other fields kept, union of the pieces' packet sets == original, "
+             "no needless split; pieces stand where the original stood at every position, flat and grouped.",
+        note="Known finding: multi-operand neq is split into pieces whose union is all ports (pinned by tests). ungroup_ports is object-graph code (copy(), setters): not proved. " + TB),
 }
 
 NA_REASON = "check not built yet (framework under construction; see DESIGN.md section 7 build order)"
